@@ -322,9 +322,9 @@ def keysOf : List Part → Option (List Bytes)
   | .key k keys _ :: rest => if keys.contains k then (keysOf rest).map (k :: ·) else none
   | _ :: _ => none
 
-theorem forkIdGo_maps (re : Bool) : ∀ (parts : List Part) (ks : List Bytes) (fuel : Nat) (buf : Bytes),
+theorem forkIdGo_maps (re se : Bool) : ∀ (parts : List Part) (ks : List Bytes) (fuel : Nat) (buf : Bytes),
     keysOf parts = some ks → parts ≠ [] → parts.length < fuel →
-    forkIdGo re fuel parts true 0 1 buf = ⟨false, buf ++ mapsId ks, true⟩ := by
+    forkIdGo re se fuel parts true 0 1 buf = ⟨false, buf ++ mapsId ks, true⟩ := by
   intro parts
   induction parts with
   | nil => intro _ _ _ _ h; exact absurd rfl h
@@ -368,9 +368,9 @@ theorem forkIdGo_maps (re : Bool) : ∀ (parts : List Part) (ks : List Bytes) (f
     | undet => simp [keysOf] at hk
     | empty => simp [keysOf] at hk
 
-theorem forkIdString_maps (re : Bool) (parts : List Part) (ks : List Bytes)
+theorem forkIdString_maps (re se : Bool) (parts : List Part) (ks : List Bytes)
     (hk : keysOf parts = some ks) (hne : parts ≠ []) :
-    forkIdString re parts = some (mapsId ks) := by
+    forkIdString re se parts = some (mapsId ks) := by
   match parts, hne with
   | [p], _ =>
     cases p with
@@ -388,7 +388,7 @@ theorem forkIdString_maps (re : Bool) (parts : List Part) (ks : List Bytes)
     | empty => simp [keysOf] at hk
   | p :: q :: r, _ =>
     simp only [forkIdString]
-    rw [forkIdGo_maps re (p :: q :: r) ks _ [] hk (by simp) (by simp; omega)]
+    rw [forkIdGo_maps re se (p :: q :: r) ks _ [] hk (by simp) (by simp; omega)]
     simp
 
 
